@@ -52,3 +52,19 @@ impl From<FilterPattern> for String {
         filter.original
     }
 }
+
+#[cfg(feature = "verif")]
+impl FilterPattern {
+    /// Builds a pattern whose glob is never initialised: only for symbolic execution where
+    /// `matches` is replaced by a stub and the value is forgotten instead of dropped.
+    ///
+    /// # Safety
+    /// The returned value must never be dropped, cloned or matched.
+    pub(crate) unsafe fn verif_opaque(original: String) -> Self {
+        #[allow(invalid_value, clippy::uninit_assumed_init)]
+        Self {
+            original,
+            glob: std::mem::MaybeUninit::uninit().assume_init(),
+        }
+    }
+}
